@@ -101,7 +101,7 @@ Proof.
   cbn in Ht. apply elem_of_cons in Ht as [->|Ht]; [done|]. by apply (IH _ Ht).
 Qed.
 
-Lemma Step_number_array (conv : dbl -> dbl) S (l : list dbl) count :
+Lemma Step_number_array {A} (conv : A -> dbl) S (l : list A) count :
   0 <= count -> (Z.to_nat count <= length l)%nat ->
   Step (create_array_of nv (fun j : Z => v <~ rd_arr l j ;; cJSON_CreateNumber nv (conv v)) false count) S
        (spec_number_array S (conv <$> l) count).1 (spec_number_array S (conv <$> l) count).2.
